@@ -460,6 +460,12 @@ func TestC17(t *testing.T) {
 		t.Fatalf("property C17 violated: %v", first)
 	}
 	// (1) generated valid configurations validate
+	var diffDocs [][]byte
+	defer func() {
+		if thorough() && len(diffDocs) > 0 {
+			validatorDifferential(t, st, emitted, s, diffDocs)
+		}
+	}()
 	rapid.Check(t, func(rt *rapid.T) {
 		c := genBuildCase(rt, c01Opts)
 		genFullMeta(rt, c)
@@ -476,9 +482,67 @@ func TestC17(t *testing.T) {
 				nondefaultEnum = true
 			}
 		}
+		if thorough() && len(diffDocs) < 400 {
+			if v, err := yamlToJSONValue(c.YAML("/r")); err == nil {
+				if b, err := json.Marshal(v); err == nil {
+					diffDocs = append(diffDocs, b)
+					// and a deliberately invalid sibling, so that the differential sees both verdicts
+					if m, ok := v.(map[string]any); ok {
+						m["not_a_key"] = 1
+						if b2, err := json.Marshal(m); err == nil {
+							diffDocs = append(diffDocs, b2)
+						}
+					}
+				}
+			}
+		}
 		st.Record(c, nondefaultEnum || nblocks >= 3, fmt.Sprintf("blocks:%d", nblocks))
 		st.Report(rt, map[string]any{"case": c}, checkSchemaCase(s, c))
 	})
+}
+
+// validatorDifferential cross-checks the harness validator against python jsonschema (when the tooling venv is there).
+func validatorDifferential(t *testing.T, st *Stats, schema []byte, s *schemaDoc, docs [][]byte) {
+	py, err := exec.LookPath("python3-vt")
+	if err != nil {
+		st.Tools["python jsonschema"] = "absent"
+		return
+	}
+	dir, err := os.MkdirTemp(scratchBase(), "jsd")
+	if err != nil {
+		return
+	}
+	defer os.RemoveAll(dir)
+	_ = os.WriteFile(filepath.Join(dir, "schema.json"), schema, 0o644)
+	var lines []string
+	for _, d := range docs {
+		lines = append(lines, string(d))
+	}
+	_ = os.WriteFile(filepath.Join(dir, "docs.jsonl"), []byte(strings.Join(lines, "\n")), 0o644)
+	script := "import json,sys,jsonschema\ns=json.load(open(sys.argv[1]))\nv=jsonschema.Draft202012Validator(s)\nprint(''.join('1' if v.is_valid(json.loads(l)) else '0' for l in open(sys.argv[2]) if l.strip()))\n"
+	out, err := exec.Command(py, "-c", script, filepath.Join(dir, "schema.json"), filepath.Join(dir, "docs.jsonl")).Output()
+	if err != nil {
+		st.Tools["python jsonschema"] = "failed: " + err.Error()
+		return
+	}
+	verdicts := strings.TrimSpace(string(out))
+	if len(verdicts) != len(docs) {
+		st.Tools["python jsonschema"] = fmt.Sprintf("returned %d verdicts for %d documents", len(verdicts), len(docs))
+		return
+	}
+	agree := 0
+	for i, d := range docs {
+		var v any
+		_ = json.Unmarshal(d, &v)
+		var errs []string
+		s.validate(s.root, v, "$", &errs)
+		mine := len(errs) == 0
+		if mine != (verdicts[i] == '1') {
+			t.Fatalf("harness schema validator disagrees with python jsonschema on document %s: harness valid=%v (%v), python valid=%v", d, mine, errs, verdicts[i] == '1')
+		}
+		agree++
+	}
+	st.Tools["python jsonschema"] = fmt.Sprintf("agrees with the harness validator on %d documents", agree)
 }
 
 func checkSchemaCase(s *schemaDoc, c *BuildCase) []Violation {
